@@ -219,17 +219,29 @@ pub async fn cmd_server(args: Vec<String>) -> Result<()> {
     install_observer(&env.log);
     let seed: u64 = arg(&args, "--seed").and_then(|s| s.parse().ok()).unwrap_or_else(seed_from_env);
     let cases = read_cases(&arg(&args, "--cases").unwrap());
-    let client = connect_client(env.server.addr, &env.certs, BackoffStrategy::constant().with_max_attempts(0)).await?;
+    let mut client = connect_client(env.server.addr, &env.certs, BackoffStrategy::constant().with_max_attempts(0)).await?;
     let mut raw = raw_connect_trusted(env.server.addr, &env.certs).await?;
     for (k, c) in cases.iter().enumerate() {
+        if k % 10 == 9 {
+            // The server keeps the sink of a departed requestor until a write to it fails, so the
+            // stream stays half-open and counts against this connection's limit of 100 concurrent
+            // streams; probing from one connection for ever would eventually block in open_bi().
+            client = connect_client(env.server.addr, &env.certs, BackoffStrategy::constant().with_max_attempts(0)).await?;
+        }
         let run = k as u64 + 1 + (seed % 1000) * 100_000;
         let mut rng = StdRng::seed_from_u64(seed.wrapping_mul(31).wrapping_add(run));
         if k % 20 == 19 {
             // fresh connection now and then (stream ids, flow control state)
             raw = raw_connect_trusted(env.server.addr, &env.certs).await?;
         }
-        if let Err(e) = server_case(&env, &client, &raw, run, c, &mut rng).await {
-            env.log.emit("harness_error", json!({"err": e.to_string()}));
+        // a case that does not finish is reported, never waited for: the server must answer
+        match tokio::time::timeout(Duration::from_secs(90), server_case(&env, &client, &raw, run, c, &mut rng)).await {
+            Ok(Ok(())) => {}
+            Ok(Err(e)) => env.log.emit("harness_error", json!({"err": e.to_string()})),
+            Err(_) => {
+                env.log.emit("harness_error", json!({"err": "case did not finish within 90 s"}));
+                raw = raw_connect_trusted(env.server.addr, &env.certs).await?;
+            }
         }
     }
     // C07 / C01: two different names never share traffic
